@@ -212,9 +212,9 @@ def check(run, replay=None):
             run.decide('dispatch/%s/%d' % (name, cidx), pre + [zb(st2.guard), bv(val[0]) != ref], kind='smt',
                        note='Kind::get_attacks forwards (square, all_pieces) to the slider lookup (lookups uninterpreted)')
             q = run.queries[-1]
-            if q.verdict == 'sat':
+            if q['verdict'] == 'sat':
                 run.violation('Kind::get_attacks(%s) does not forward square/all_pieces to the %s lookup' % (name, target),
-                              {'piece': name, 'note': 'dispatch lemma', 'model': str(q.model)[:500]})
+                              {'piece': name, 'note': 'dispatch lemma'})
     run.stubs.add('dispatch lemma: Rook/Bishop lookups replaced by uninterpreted functions (their exactness is the per-square obligation)')
 
 
